@@ -103,6 +103,15 @@ theorem C18_codes_documented :
     (Gen.paramErrorCodes.all fun kv => Gen.documentedCodes.contains kv.2) = true ∧
     (Gen.dataStatusCodes.all fun kv => kv.2 == "" || Gen.documentedCodes.contains kv.2) = true := by decide
 
+/-- every kind of parameter defect the parsers can raise is answered with its own specific
+    documented code, never with the catch-all `PARAM_ERROR_UNKNOWN` -/
+theorem C18_codes_specific :
+    (Gen.paramErrorCodes.all fun kv => kv.2 != "PARAM_ERROR_UNKNOWN") = true ∧
+    Gen.paramErrorCodes.lookup "MISSING_PLACE" = some "MISSING_PARAM_PLACE" ∧
+    Gen.paramErrorCodes.lookup "INVALID_PLACE" = some "INVALID_PLACE" ∧
+    Gen.paramErrorCodes.lookup "INVALID_NUMERICAL_DATA" = some "INVALID_NUMERICAL_DATA" ∧
+    Gen.paramErrorCodes.lookup "MISSING_SCENARIO" = some "MISSING_PARAM_SCENARIO" := by decide
+
 /-- documented defaults and the "non-positive means no limit" normalisation -/
 theorem C18_defaults :
     Gen.DEFAULT_MIN_WAITING_TIME = 180 ∧ Gen.DEFAULT_MAX_ACCESS_TRAVEL_TIME = 1200 ∧
